@@ -17,7 +17,14 @@ ASSUMPTIONS = cc.ASSUMPTIONS_CORE
 
 
 def extra(tier, rng):
-    return []
+    """chains of awaiting tasks far deeper than the interpreter's recursion limit, and structured trees"""
+    import coregen
+    res = [cc.chain_case(n, k) for n in ((50, 1200, 5000) if tier == "quick" else (50, 1200, 5000, 20000, 50000)) for k in ("plain", "item")]
+    for d, f in ((1, 3), (2, 3), (3, 2), (2, 5)):
+        res.append({"cfg": {"kinds": {}}, "profile": "tree", "tops": [["value", coregen.balanced_tree(d, f)]]})
+    for n in (2, 5, 12, 30):
+        res.append({"cfg": {"kinds": {}}, "profile": "chain", "tops": [["call", coregen.dependent_chain(n)]]})
+    return res
 
 
 def plan(tier, seed):
